@@ -48,9 +48,26 @@ def check(case):
     res = R()
     sp, opt = case["spec"], case["opt"]
     tp = np.array(case["grid"], dtype=float)
+    layout = sp.get("grid_layout", "contiguous")
+    if layout == "strided":                    # the same times as a view into a larger array
+        big = np.full(2 * len(tp), -1.0)
+        big[::2] = tp
+        tp = big[::2]
+    elif layout == "column":                   # ... or as a column of a table
+        tab = np.zeros((len(tp), 3))
+        tab[:, 1] = tp
+        tp = tab[:, 1]
+    if layout != "contiguous":
+        res.label("time_grid_layout:" + layout)
     with specmod.quiet():
         M = specmod.to_model(sp)
-    species_order = M.get_species_list()
+    species_order = list(M.get_species_list())
+    if sp.get("caller_edits_species_list"):
+        # what the model hands out is the caller's to keep: re-ordering or extending it changes nothing in the model
+        lst = M.get_species_list()
+        lst.reverse()
+        lst.append("not_a_species")
+        res.label("caller_edited_the_returned_species_list")
     kwargs = dict(stochastic=opt["stochastic"], delay=opt["delay"], safe=opt["safe"],
                   return_dataframe=opt["return_dataframe"])
     vol = opt["volume"]
@@ -250,6 +267,8 @@ def models(draw, flags=None):
                         "freq": draw(st.sampled_from(["repeated", "repeated", "dt"])), "tree": tree, "dest": tot})
     sp = b.spec(x0)
     sp["state_route"] = draw(st.sampled_from(["model", "model", "int_array", "reused_buffer"]))
+    sp["grid_layout"] = draw(st.sampled_from(["contiguous", "contiguous", "strided", "column"]))
+    sp["caller_edits_species_list"] = draw(st.booleans())
     return sp
 
 
